@@ -641,6 +641,40 @@ def c03(tier):
     for j in range(nmt):
         record_mt_and_validate(rep, [{"kind": "hash"}, {"kind": "hash", "uniform": True}], 8,
                                150 if thorough else 60, SEED * 211 + j, label="c03mt%d" % j)
+    # tree columns (MultiTree.tla): clean close with commits still queued, among them dereferences that the drain inside
+    # drop() has to defer (tree marked as used by an insertion queued behind it); the drain steps of the model are
+    # compared with what the log-worker code did inside drop() (hook events) and the reopened database with the
+    # model's drained state
+    ncl, ncd = 0, 0
+    for j, var in enumerate(["", "rc"] + (["direct", "big"] if thorough else [])):
+        vs = var.split(",")
+        behs = mt_generate(rep, 120 if thorough else 30, 34, SEED * 31 + j, rc="rc" in vs, fine=False, shapes="ShapesWide",
+                           maxids=14, maxcommits=10, maxlocks=5, maxdefers=4, nt=3, nv=2)
+        # (behaviours in which a deferred commit overtakes a commit writing the same key are C11's known finding F3)
+        keep = [b for b in behs if any(e.get("a") == "Close" for e in b["steps"]) and not any(o.get("conflict") for o in b["obs"])]
+        for b in keep:
+            closing = False
+            for e in b["steps"]:
+                if e.get("a") == "Close":
+                    closing, ncl = True, ncl + 1
+                elif e.get("a") == "Reopen":
+                    closing = False
+                elif closing and e.get("a") == "Defer":
+                    ncd += 1
+        generic_replay(rep, "mtree-replay", keep, {"seed": SEED + 90 + j, "variant": var}, "c03m_%d" % j, "mtree-replay")
+    # the close whose drain must defer needs six specific steps in a row: enumerated by TLC from a script
+    for j, (sc, var) in enumerate([("ScriptCloseDefer", ""), ("ScriptCloseDefer2", ""), ("ScriptCloseDefer", "rc")]
+                                  + ([("ScriptCloseDefer2", "direct,big")] if thorough else [])):
+        behs = mt_scripted(rep, sc, limit=60 if thorough else 20, rc="rc" in var.split(","), fine=False, shapes="ShapesSmall",
+                           maxids=8, maxcommits=6, maxlocks=2, maxdefers=3, nt=3, nv=1)
+        keep = [b for b in behs if not any(o.get("conflict") for o in b["obs"])]
+        ncl += len(keep)
+        ncd += sum(1 for b in keep for e in b["steps"] if e.get("a") == "Defer")
+        generic_replay(rep, "mtree-replay", keep, {"seed": SEED + 95 + j, "variant": var}, "c03s_%d" % j, "mtree-replay")
+    rep.extra["tree_closes_with_queued_commits"] = ncl
+    rep.extra["deferrals_inside_drop"] = ncd
+    if ncl < 5 or ncd < 1:
+        raise ToolError("tree behaviours: %d clean closes with queued commits, %d deferrals inside drop(): vacuous" % (ncl, ncd))
     return rep.finish()
 
 
@@ -1518,16 +1552,19 @@ def c09(tier):
 
 def mt_cfg(rc=False, ao=False, fine=False, shapes="ShapesSmall", maxids=5, maxcommits=4, maxlocks=0, maxdefers=2, maxcrash=0,
            nt=2, nv=1, fix=("F18", "F20"), mut=(), gen=False, genlen=30, invariants=None, pipes=("flush", "enact", "clean"),
-           rejw=6):
+           rejw=6, script=None):
     b = lambda x: "TRUE" if x else "FALSE"
     sset = lambda xs: "{" + ", ".join('"%s"' % x for x in xs) + "}"
-    lines = ["SPECIFICATION %s" % ("GenSpec" if gen else "MCSpec"), "CONSTANTS",
+    lines = ["SPECIFICATION %s" % ("ScriptSpec" if script else "GenSpec" if gen else "MCSpec"), "CONSTANTS",
+             "  Script <- %s" % (script or "ScriptNone"),
              "  NT = %d" % nt, "  NX = 1", "  NV = %d" % nv, "  MaxIds = %d" % maxids, "  MaxCommits = %d" % maxcommits,
              "  MaxLocks = %d" % maxlocks, "  MaxCrash = %d" % maxcrash, "  MaxDefers = %d" % maxdefers, "  RcRoots = %s" % b(rc), "  AO = %s" % b(ao),
              "  Fine = %s" % b(fine), "  Fix = %s" % sset(fix), "  Mut = %s" % sset(mut), "  NoHist = %s" % b(not gen),
              "  Shapes <- %s" % shapes,
              "  GenLen = %d" % genlen, "  Pipes = %s" % sset(pipes), "  RejW = %d" % rejw]
-    if gen:
+    if script:
+        lines += ["INVARIANTS TypeOK EmitScript"]
+    elif gen:
         lines += ["INVARIANTS TypeOK EmitTrace"]
     else:
         inv = invariants or ("TypeOK", "NoCorrupt", "ReaderStable", "IdealVisible", "XVisible", "FinalState")
@@ -1541,6 +1578,25 @@ def mt_generate(rep, num, depth, seed, **kw):
     behs, gen, _ = vcore.tlc_simulate("MCMultiTree.tla", write_cfg(mt_cfg(**kw)), num, depth, seed)
     rep.transitions += gen
     return behs
+
+
+def mt_scripted(rep, script, limit=40, **kw):
+    """all behaviours of MultiTree.tla that follow a script (MCMultiTree.tla ScriptSpec), enumerated breadth first"""
+    kw.update(gen=True, script=script)
+    res = vcore.tlc_check("MCMultiTree.tla", write_cfg(mt_cfg(**kw)), workers=1, timeout=1200)
+    behs = []
+    for line in res["out"].splitlines():
+        if line.startswith('"REPLAY '):
+            try:
+                behs.append(json.loads(json.loads(line)[7:]))
+            except ValueError:
+                pass
+    rep.add_model(res, "SCRIPT_MultiTree(%s)" % script)
+    if not behs:
+        raise ToolError("script %s: the specification has no behaviour that follows it" % script)
+    # spread the sample over the enumeration
+    step = max(1, len(behs) // limit)
+    return behs[::step][:limit]
 
 
 def mt_scenario(rep, which, variant=""):
